@@ -177,12 +177,12 @@ def gen_pairs(name, rng, n):
             a, _ = S.gen_valid(name, rng)
         except RuntimeError:
             continue
-        if r < 0.35:
+        if r < 0.30:
             try:
                 b = S.RESPELL[name](a, rng)
             except Exception:  # noqa: BLE001
                 b = a
-        elif r < 0.43:
+        elif r < 0.38:
             # equal up to spelling, then one numeric field (mostly the last) moved by a small amount
             try:
                 b = S.RESPELL[name](a, rng)
@@ -196,7 +196,14 @@ def gen_pairs(name, rng, n):
             cuts = [i for i, ch in enumerate(a) if ch in "-+~_^" and i > 0]
             if not cuts or rng.random() < 0.2:
                 cuts += [i for i, ch in enumerate(a) if ch == "." and i > 0]
-            b = a[:rng.choice(cuts)] if cuts else mutate(a, rng)
+            if not cuts:
+                b = mutate(a, rng)
+            else:
+                i = rng.choice(cuts)
+                b = a[:i]
+                if rng.random() < 0.5:
+                    # ... or when the tail is replaced by a short one (1-2-1 / 1-10, 1.0~rc1 / 1.0~2)
+                    b = a[:i + 1] + rng.choice(["0", "1", "2", "10", "3", "01", "a", "rc1", "1.1", "0.5"])
         elif r < 0.5:
             b = mutate(a, rng)
         elif r < 0.75 and pool:
